@@ -18,7 +18,7 @@ PROBES = ["waited_then_admitted", "left_while_waiting", "early_unplug", "two_or_
 FAULT_DIMENSION = "adversarial random.choice tape (always first / always last free station); crash + rerun"
 ASSUMPTIONS = ["the model does not predict *which* free station is chosen, only that it was free",
                "early departure: a connected EV is 'satisfied' when requested - delivered <= 1e-3 kWh (the library's fully_charged)"]
-PROFILE = world.profile(net="stochastic", stations=(1, 4), horizon=(4, 30), hot=0.5, demand=(0.01, 1.2),
+PROFILE = world.profile(zero_demand=0.12, net="stochastic", stations=(1, 4), horizon=(4, 30), hot=0.5, demand=(0.01, 1.2),
                         party={"uncontrolled": 3, "greedy": 2, "scripted": 1}, evse_kinds={"cont": 3, "finite": 2},
                         faults={"crash": 0.2}, resume_modes=["rerun"], noise=0.1, sessions_cap=15,
                         constraints={"none": 1, "single": 2, "three": 1})
